@@ -2,9 +2,9 @@ CONSTANTS
   Codes <- Codes_mc
   HdrSets <- Hdrs_small
   UnitSeq <- Units
-  MaxBody = 2
+  MaxBody = 1
   Framings = {"cl", "chunked", "close"}
-  Kinds = {"ok", "refuse", "blackhole", "noread", "garbage", "badhdr", "badcl", "badchunk"}
+  Kinds = {"ok", "refuse", "blackhole", "noread", "garbage", "badhdr", "badcl", "shortcl", "badchunk", "tecase"}
   CutCodes <- Codes_mc
   UpModes = {"free"}
   Requests <- Req_one
